@@ -1,6 +1,7 @@
 from typing import Sequence
 
 from pbhhg_py import abstract_syntax as AS
+from pbhhg_py import error
 from pbhhg_py import utils
 
 
@@ -41,6 +42,10 @@ def build_tbl(
         [seq] = utils.check_type(metadata, [argv[0]], AS.List)
         pieces = yield from utils.map_strict(seq.value)
         pieces = utils.check_type(metadata, pieces, AS.String | AS.Bytes)
+        if not pieces:
+            raise error.UnsuspectedHangeulValueError(
+                metadata, "빈 목록은 꿰맬 수 없습니다."
+            )
 
         if isinstance(pieces[0], AS.String):
             pieces = utils.check_type(metadata, pieces, AS.String)
